@@ -71,7 +71,7 @@ def kani_obligations(h, prop):
     out = {}
     for mm in re.finditer(r'"\[((?:C\d{2,3}[ ,]*)+)([\w\-\.]*)\]', body):
         props = re.findall(r"C\d{2,3}", mm.group(1))
-        if prop in props:
+        if prop in props or (prop == "C17" and h.group == "nodebug"):
             out["kani:%s:[%s]" % (h.name, mm.group(2))] = True
     for helper in sorted(set(re.findall(r"\b((?:chk|run)_\w+)\(", body))):
         hm = re.search(r"fn %s\b.*?\n    \}" % re.escape(helper), src, re.S)
@@ -171,6 +171,9 @@ def decide(prop, tier, seed):
         failed_here = {}
         for fc in r.get("failed_checks", []):
             ps, tag = kunit.props_of_failed_check(fc["description"], h)
+            if h.group == "nodebug":
+                # the same harness passes in the default (debug) build: any failure here is a debug / release divergence
+                ps = list(ps) + ["C17"]
             if prop not in ps:
                 continue
             oid = "kani:%s:[%s]" % (h.name, tag) if TAGGED(fc["description"]) else "kani:%s:safety" % h.name
@@ -324,6 +327,8 @@ def decide_all(tier):
             undecided.append("kani harness %s: only %d of %d cover points reachable" % (h.name, cov[0], cov[1]))
         for fc in r.get("failed_checks", []):
             ps, tag = kunit.props_of_failed_check(fc["description"], h)
+            if h.group == "nodebug":
+                ps = list(ps) + ["C17"]
             oid = "kani:%s:[%s]" % (h.name, tag) if TAGGED(fc["description"]) else "kani:%s:safety" % h.name
             failed.append((oid, ps))
     seen = set()
